@@ -49,11 +49,17 @@ OPERATORS['U+'] = wrap_ufunc(
 )
 
 
+def _empty_as(other):
+    if isinstance(other, str):
+        return ''
+    return False if _get_type_id(other) == 2 else 0
+
+
 def logic_input_parser(x, y):
     if x is sh.EMPTY:
-        x = '' if isinstance(y, str) else 0
+        x = _empty_as(y)
     if y is sh.EMPTY:
-        y = '' if isinstance(x, str) else 0
+        y = _empty_as(x)
     return (_get_type_id(x), x), (_get_type_id(y), y)
 
 
